@@ -9,6 +9,9 @@
 EXTENDS Integers, Sequences, FiniteSets
 
 Good == {"ok", "error"}
-Outcomes == Good \cup {"panic", "stack-overflow", "timeout", "oom", "crash"}
-BrokenOps(outs) == {i \in 1..Len(outs) : outs[i] \notin Good}
+(* "notrun": after two operations ran out of their time budget on one input the remaining operations on   *)
+(* that input are not executed; they are not judged (the input is already a reported violation).          *)
+NotJudged == {"notrun"}
+Outcomes == Good \cup NotJudged \cup {"panic", "stack-overflow", "timeout", "oom", "crash"}
+BrokenOps(outs) == {i \in 1..Len(outs) : outs[i] \notin Good \cup NotJudged}
 =============================================================================
